@@ -371,6 +371,38 @@ pub fn gcd_ext_large_word<const N: usize, const P: usize>(b: Word, swap: bool) {
     }
 }
 
+/// kernel gcd::gcd_ext_word(lhs, rhs): g = gcd, and a*lhs + b*rhs == g with b = b_sign * (lhs after the call)
+pub fn k_gcd_ext_word<const N: usize, const P: usize>(rhs: Word) {
+    use core::cmp::Ordering;
+    let l0: [Word; N] = nd::any();
+    nd::assume(l0[N - 1] != 0);
+    let mut l: Box<[Word; N]> = Box::new(l0);
+    let (g, a, b_sign) = dashu_int::verif::gcd::gcd_ext_word(&mut l[..], rhs);
+    assert!(g != 0 && rhs % g == 0);
+    let a_neg = a < 0;
+    let a_mag = a.unsigned_abs() as Word;
+    // |a| * lhs0 and |b| * rhs as P-word naturals (P = N + 1)
+    let mut al = [0 as Word; P];
+    oracle::mul(&l0, &[a_mag], &mut al);
+    let mut br = [0 as Word; P];
+    oracle::mul(&l[..], &[rhs], &mut br);
+    let mut diff = [0 as Word; P];
+    let gs = [g];
+    let b_neg = b_sign == NEG;
+    match oracle::cmp(&al, &br) {
+        Ordering::Greater => {
+            oracle::sub(&al, &br, &mut diff);
+            assert!(oracle::cmp(&diff, &gs) == Ordering::Equal, "Bezout identity fails");
+            assert!(!a_neg && (oracle::is_zero(&br) || b_neg), "Bezout signs wrong");
+        }
+        _ => {
+            oracle::sub(&br, &al, &mut diff);
+            assert!(oracle::cmp(&diff, &gs) == Ordering::Equal, "Bezout identity fails");
+            assert!(!b_neg && (oracle::is_zero(&al) || a_neg), "Bezout signs wrong");
+        }
+    }
+}
+
 /// UBig::remove with a power-of-two factor (shift path) and a small odd factor on small values
 pub fn remove_small(bits: u32, factor: Word) {
     let v: Word = nd::any();
